@@ -792,6 +792,27 @@ def gen_expect_cases(rng, which):
                                  "peers_struct": {url: pf}, "registry": reg, "mode": ["unlocked", "unlocked", "unlocked", "locked"][k],
                                  "allow_criteria_changes": True,
                                  "expect": {"passes": True, "why": f"the peer's violation names only {crit}, which this import maps to no local criterion"}}))
+    if which == "unpublished-after-publication":
+        # a recorded `unpublished` link keeps certifying after crates.io has published the version (and a publisher record for it
+        # has been cached): no false failure (C02 / C08)
+        for k in range(3):
+            pkgs = [{"name": "wsaaa", "version": "1.0.0", "source": "path", "workspace": True,
+                     "deps": [{"name": "fpxxx", "version": "4.0.0", "source": "path", "kinds": ["normal"]}]},
+                    {"name": "fpxxx", "version": "4.0.0", "source": "path", "workspace": False, "deps": []}]
+            store = {"criteria": {}, "policy": {"fpxxx": {"audit-as-crates-io": True}}, "imports": {}, "exemptions": {},
+                     "audits": {"fpxxx": [{"kind": "full", "version": "3.0.0", "criteria": ["safe-to-deploy"], "notes": "the audited release"}]},
+                     "wildcard_audits": ({"fpxxx": [{"user-id": 1, "start": "2022-01-01", "end": "2022-01-02", "criteria": ["safe-to-run"], "notes": "w"}]} if k else {}),
+                     "trusted": {},
+                     "lock": {"audits": {}, "unpublished": {"fpxxx": [{"version": "4.0.0", "audited_as": "3.0.0"}]},
+                              "publisher": {"fpxxx": [{"version": "4.0.0", "when": "2022-12-31", "user-id": 2, "user-login": "user2", "user-name": "User 2"}]
+                                            + ([{"version": "3.0.0", "when": "2022-06-15", "user-id": 2, "user-login": "user2", "user-name": "User 2"}] if k == 2 else [])}}}
+            reg = {"users": [[1, "user1", "User 1"], [2, "user2", "User 2"]],
+                   "packages": {"fpxxx": [{"version": "3.0.0", "by": 2, "when": "2022-06-15"}, {"version": "4.0.0", "by": 2, "when": "2022-12-31"}]},
+                   "meta": {"fpxxx": {"description": "whatever"}}}
+            out.append(finalize({"id": f"xp{k}", "kind": "resolve", "graph": {"packages": pkgs}, "store_struct": store, "peers_struct": {},
+                                 "registry": reg, "mode": ["locked", "locked", "unlocked"][k], "allow_criteria_changes": True,
+                                 "expect": {"passes": True, "why": "fpxxx 4.0.0 is recorded as audited-as 3.0.0, which is fully audited for safe-to-deploy "
+                                            "(that 4.0.0 has meanwhile been published, by somebody no grant covers, changes nothing)"}}))
     if which == "wildcard-window-gap":
         # one import, two URLs, the same publisher's wildcard audit in each with DISJOINT windows; the version in use was published
         # in the gap: no entry covers it (C06)
@@ -1947,12 +1968,17 @@ def scenario_certify_collapse(cid, k=0):
         strong, weak = ["crit-a"], ["crit-b"]
     if k % 3 == 2:
         weak = strong
+    if k == 3:
+        # two INDEPENDENT criteria are certified at once, the prior audit was recorded for one of them only: its list is a
+        # sub-list of the new one, its meaning is not the new one's
+        table = {"crit-a": {"description": "one", "implies": []}, "crit-b": {"description": "other", "implies": []}}
+        strong, weak = ["crit-a", "crit-b"], ["crit-a"]
     store = {"criteria": table, "policy": {"fgaaa": {"audit-as-crates-io": True}}, "imports": {}, "exemptions": {},
              "audits": {"fgaaa": [{"kind": "full", "version": "2.0.0", "criteria": ["safe-to-deploy"] + (strong if table else []), "notes": "the release"},
                                   {"kind": "delta", "from": "2.0.0", "to": old, "criteria": weak, "importable": False, "notes": "first look at the fork"}]},
              "wildcard_audits": {}, "trusted": {}, "lock": {"audits": {}, "publisher": {}, "unpublished": {}}}
     if table:
-        store["policy"]["wsaaa"] = {"criteria": ["safe-to-deploy", "crit-a"]}
+        store["policy"]["wsaaa"] = {"criteria": ["safe-to-deploy"] + sorted(table if k == 3 else ["crit-a"])}
     registry = {"users": [[1, "user1", "User 1"]], "packages": {"fgaaa": [{"version": "2.0.0", "by": 1, "when": "2022-01-01"}]},
                 "meta": {"fgaaa": {"description": "whatever"}}}
     remote = render_remote({}, registry)
@@ -2477,6 +2503,29 @@ def gen_audit_as_case(rng, cid):
 
 # ---------------------------------------------------------------------------
 # aggregate cases (C16)
+
+def gen_aggregate_conflict_case(cid, k=0):
+    """two sources that define ONE criterion name with different `implies` lists, one list containing the other (k=0: the later
+    source implies less; k=1: the later implies more; k=2: a longer chain): aggregation must refuse — whichever definition won,
+    the other source's entries would change their meaning"""
+    import random as _r
+    seed = 100 + k
+    while True:
+        case = gen_aggregate_case(_r.Random(seed), cid)
+        if len(case["sources"]) >= 2:
+            break
+        seed += 10
+    u0, u1 = case["sources"][0]["url"], case["sources"][1]["url"]
+    big, small = ["safe-to-deploy"], []
+    if k == 2:
+        big, small = ["safe-to-deploy", "safe-to-run"], ["safe-to-run"]
+    a, b = (big, small) if k != 1 else (small, big)
+    case["sources_struct"][u0]["criteria"]["planted"] = {"description": "the same words", "implies": list(a)}
+    case["sources_struct"][u1]["criteria"]["planted"] = {"description": "the same words", "implies": list(b)}
+    for s_ in case["sources"][:2]:
+        s_["text"] = render_audits_file(case["sources_struct"][s_["url"]])
+    return case
+
 
 def gen_aggregate_case(rng, cid):
     pkgs = gen_graph(rng)
